@@ -933,6 +933,9 @@ func isSingleStringLiteral(s string) bool {
 	return strings.IndexByte(s[1:len(s)-1], s[0]) < 0
 }
 
+// bareNumberRe matches an unsigned numeric literal written as a whole SELECT item.
+var bareNumberRe = regexp.MustCompile(`^[0-9]+(\.[0-9]+)?$`)
+
 // Parse aggregation function and return expression information
 func ParseAggregateTypeWithExpression(exprStr string) (aggType aggregator.AggregateType, name string, expression string, allFields []string, err error) {
 	// 首先检测是否存在嵌套聚合函数
@@ -996,6 +999,16 @@ func ParseAggregateTypeWithExpression(exprStr string) (aggType aggregator.Aggreg
 			// String literal: use content without quotes as field name
 			fieldName := trimmed[1 : len(trimmed)-1]
 			return "expression", fieldName, exprStr, nil, nil
+		}
+
+		// A numeric literal (SELECT 5 AS n) and the operator-less predicates x IS [NOT] NULL and x LIKE 'p' are
+		// expressions too; a back-quoted identifier is a column whatever it contains.
+		upperExpr := strings.ToUpper(trimmed)
+		backQuoted := len(trimmed) >= 2 && trimmed[0] == '`' && strings.IndexByte(trimmed[1:], '`') == len(trimmed)-2
+		if !backQuoted && (bareNumberRe.MatchString(trimmed) || strings.HasPrefix(upperExpr, "NOT ") ||
+			strings.HasSuffix(upperExpr, " IS NULL") || strings.HasSuffix(upperExpr, " IS NOT NULL") ||
+			strings.Contains(upperExpr, " LIKE ")) {
+			return "expression", "", exprStr, nil, nil
 		}
 
 		// If not a function call but contains operators or keywords, it might be an expression
